@@ -695,6 +695,14 @@ func (e *scEngine) Execute(raw json.RawMessage) (*kernel.Outcome, error) {
 	if switchesInside > 0 {
 		out.Count("probe.switch_landed_inside_library_call", int64(switchesInside))
 		out.Nontrivial = true
+		// what this simulator injects are scheduling decisions: preemptions at yield points
+		out.Count("fault.preemption_inside_library_call", int64(switchesInside))
+		if plan.Kind == "sweep" {
+			out.Count("fault.task_parked_while_all_others_run", 1)
+		}
+		if plan.SwitchAfterHold {
+			out.Count("fault.preemption_right_after_once_protected_call", 1)
+		}
 	}
 	for i, p := range c.Tasks {
 		for j, op := range p {
